@@ -26,6 +26,8 @@ theorem IndexSelect32_loop (fuel : Nat) (ws : List Nat) (hlen : ws.length < 2^25
   | k + 1, i, gas, cnt, acc, hik, hg, hc => by
     obtain ⟨g, rfl⟩ : ∃ g, gas = g + 1 := ⟨gas - 1, by omega⟩
     have hil : i < ws.length * 64 := by omega
+    -- the arithmetic side conditions of the induction hypothesis, proved while the context is small (`omega` called
+    -- after the unfolding below makes the kernel report "deep recursion")
     have hik' : i + 1 + k = ws.length * 64 := by omega
     have hg' : k + 1 ≤ g := by omega
     have hc' : cnt ≤ i + 1 := by omega
@@ -73,6 +75,8 @@ theorem Tie_bitmap_IndexSelect32 (ws : List Nat) (fuel : Nat) (hlen : ws.length 
 
 example : Gen.Ssa3.bitmap_IndexSelect32 65 [0xffffffffffffffff] = some [0, 32] := by decide
 example : indexSelect32 [0xffffffffffffffff] = [0, 32] := by decide
+set_option maxRecDepth 4000 in
+example : Gen.Ssa3.bitmap_IndexSelect32 129 [0xffffffff, 5] = some [0, 64] := by decide
 -- out of fuel
 example : Gen.Ssa3.bitmap_IndexSelect32 64 [0xffffffffffffffff] = none := by decide
 
